@@ -592,9 +592,10 @@ def run_unit(u, tier="quick", seed=0, query_timeout_ms=None, log=print):
             out["aborted"][k] = out["aborted"].get(k, 0) + 1
             if k == "unsupported":
                 out["inconclusive"].append(f"path abandoned: {pr.abort}")
-            if k == "infeasible":
+            if k == "infeasible" and not h.obligations:
                 continue
-            # obligations recorded before a bound/undefined abort are still discharged below
+            # obligations recorded before the abort are still discharged below (each under the
+            # hypotheses in force when it was stated)
         out["paths"] += 1
         # reachability twin: the path's hypotheses must be satisfiable
         st, _ = solve(ctx.hyps(), timeout_ms=min(qto, 1500), want_model=False)
